@@ -109,7 +109,7 @@ Fixpoint init_vis (pushed : list var) (p : alg) : bool :=
       || init_vis pushed a || init_vis pushed b
   | Filter _ _ e q => bad e q || init_vis pushed q
   | Extend _ q _ e => bad e q || init_vis pushed q
-  | Project q _ | Graph _ q | Distinct q => init_vis pushed q
+  | Project q _ | Graph _ q | Distinct q | Slice _ q => init_vis pushed q
   end.
 
 Definition kf_group (g : group) : bool :=
